@@ -32,10 +32,28 @@ class Lock:
         self.f.close()
 
 
+def project_text():
+    files = []
+    for dp, dn, fn in os.walk(paths.THEORIES):
+        dn.sort()
+        for f in sorted(fn):
+            if f.endswith(".v"):
+                files.append(os.path.relpath(os.path.join(dp, f), paths.COQ))
+    gen = "theories/Gen/Tables.v"
+    if gen not in files:
+        files.append(gen)
+    return "-Q theories Verif\n" + "\n".join(sorted(files)) + "\n"
+
+
 def ensure_makefile():
+    """_CoqProject lists every .v under theories/ (regenerated when the set changes)."""
     mk = os.path.join(paths.COQ, "Makefile")
     proj = os.path.join(paths.COQ, "_CoqProject")
-    if (not os.path.exists(mk)) or os.path.getmtime(mk) < os.path.getmtime(proj):
+    text = project_text()
+    old = open(proj).read() if os.path.exists(proj) else None
+    if old != text:
+        open(proj, "w").write(text)
+    if (not os.path.exists(mk)) or old != text or os.path.getmtime(mk) < os.path.getmtime(proj):
         subprocess.run(["coq_makefile", "-f", "_CoqProject", "-o", "Makefile"],
                        cwd=paths.COQ, check=True, capture_output=True)
 
